@@ -299,6 +299,37 @@ def Reader.writeTo (b : Reader) (ws : WScript) : Reader × Nat × Nat × Bytes :
   if e ≠ 0 then (b, n, e, o)
   else Reader.writeToLoop (b.fuel + ws.length) b ws n o
 
+/-! #### delegation: the underlying reader is itself an `io.WriterTo`
+
+  The scripted source then writes its remaining chunks to `w` one `Write` per chunk; it stops at a sink
+  error, at a short write (`io.ErrShortWrite`, keeping the unwritten rest), at its own error, or at EOF. -/
+
+/-- (m, err, source', sink script', bytes the sink took) -/
+def srcWriteTo : Script → WScript → Nat × Nat × Script × WScript × Bytes
+  | [], ws => (0, 0, [], ws, [])
+  | (d, e) :: rest, ws =>
+    let (k, we, ws') := wsWrite ws d
+    if we ≠ 0 then (k, we, (d.drop k, e) :: rest, ws', d.take k)
+    else if k < d.length then (k, 6, (d.drop k, e) :: rest, ws', d.take k)
+    else if e = 1 then (k, 0, rest, ws', d)
+    else if e ≠ 0 then (k, e, rest, ws', d)
+    else
+      let (m, err, s', w', o) := srcWriteTo rest ws'
+      (k + m, err, s', w', d ++ o)
+
+/-- `WriteTo(w)` when `b.rd` is an io.WriterTo: flush the buffer, then let the source write the rest.
+    (As in the standard library this relies on the io.Writer contract: a short write comes with an error;
+    otherwise the unwritten buffered bytes would be overtaken.) -/
+def Reader.writeToWT (b : Reader) (ws : WScript) : Reader × Nat × Nat × Bytes :=
+  let (b, n, e, ws, o) := b.writeBuf ws
+  if e ≠ 0 then (b, n, e, o)
+  else
+    let (m, err, src', _, o2) := srcWriteTo b.src ws
+    ({ b with src := src', total := b.total + m, consumed := b.consumed ++ o2 }, n + m, err, o ++ o2)
+
+/-- `NewReaderSize(b, size)` on an existing Reader: the same Reader iff its buffer is large enough -/
+def Reader.newReaderSizeSame (b : Reader) (size : Nat) : Bool := decide (b.cap ≥ size)
+
 /-! ### Writer -/
 
 structure Writer where
@@ -402,6 +433,19 @@ def Writer.readFromLoop : Nat → Writer → Script → Nat → Writer × Nat ×
         let b := { b with buf := b.buf ++ d, accepted := b.accepted ++ d }
         if e ≠ 0 then (b, n + d.length, e, src', false) else readFromLoop f b src' (n + d.length)
 
+/-- an underlying writer that is an io.ReaderFrom: reads `r` in 8-byte pieces until EOF (→ nil) or an
+    error, and takes everything: (n, err, bytes) -/
+def sinkReadFromLoop : Nat → Script → Nat → Bytes → Nat × Nat × Bytes
+  | 0, _, n, out => (n, 99, out)
+  | f + 1, src, n, out =>
+    let (d, e, src') := srcRead src 8
+    if e = 1 then (n + d.length, 0, out ++ d)
+    else if e ≠ 0 then (n + d.length, e, out ++ d)
+    else sinkReadFromLoop f src' (n + d.length) (out ++ d)
+
+/-- `NewWriterSize(b, size)` on an existing Writer -/
+def Writer.newWriterSizeSame (b : Writer) (size : Nat) : Bool := decide (b.cap ≥ size)
+
 /-- `ReadFrom(r)` for an underlying writer that is not an io.ReaderFrom -/
 def Writer.readFrom (b : Writer) (src : Script) : Writer × Nat × Nat :=
   let (b, n, e, _, early) := Writer.readFromLoop (srcMeasure src + 2) b src 0
@@ -410,6 +454,13 @@ def Writer.readFrom (b : Writer) (src : Script) : Writer × Nat × Nat :=
     let (b, e) :=
       if e = 1 then (if b.available = 0 then b.flush else (b, 0)) else (b, e)
     ({ b with total := b.total + n }, n, e)
+
+/-- `ReadFrom(r)` when `b.wr` is an io.ReaderFrom: delegated iff nothing is buffered -/
+def Writer.readFromRF (b : Writer) (src : Script) : Writer × Nat × Nat :=
+  if b.buf.isEmpty then
+    let (n, e, o) := sinkReadFromLoop (srcMeasure src + 2) src 0 []
+    ({ b with out := b.out ++ o, accepted := b.accepted ++ o, total := b.total + n }, n, e)
+  else b.readFrom src
 
 /-! ### operation sequences -/
 
